@@ -8,6 +8,7 @@ package c10
 
 import (
 	"fmt"
+	"os"
 	"path/filepath"
 	"sort"
 	"strings"
@@ -26,6 +27,31 @@ var envVals = map[string]string{
 	// and is inserted as it is
 	"VERIF_C10_S": "self-{$VERIF_C10_S}-ref",
 	// VERIF_C10_U is never set
+}
+
+// Two variables change from one parse to the next of the same process (the
+// child sets them before each case): VERIF_C10_ROT takes one of five values,
+// VERIF_C10_TOG is set for even case numbers and unset for odd ones. What a
+// placeholder expands to is the variable's value at the time of THAT parse.
+var curCase int
+
+func rotVal(idx int) string { return fmt.Sprintf("rot%d", idx%5) }
+
+func togVal(idx int) (string, bool) {
+	if idx%2 == 0 {
+		return fmt.Sprintf("tog%d", idx%3), true
+	}
+	return "", false
+}
+
+// SetCaseEnv puts the per-case variables into the process environment.
+func SetCaseEnv(idx int) {
+	os.Setenv("VERIF_C10_ROT", rotVal(idx))
+	if v, ok := togVal(idx); ok {
+		os.Setenv("VERIF_C10_TOG", v)
+	} else {
+		os.Unsetenv("VERIF_C10_TOG")
+	}
 }
 
 func envList() []string {
@@ -165,7 +191,15 @@ func substEnv(s string) string {
 			if strings.HasPrefix(s[i:], form[0]+"VERIF_C10_") {
 				if j := strings.Index(s[i:], form[1]); j > 0 {
 					name := s[i+len(form[0]) : i+j]
-					if v, ok := envVals[name]; ok || name == "VERIF_C10_U" {
+					v, ok := envVals[name]
+					switch name {
+					case "VERIF_C10_ROT":
+						v, ok = rotVal(curCase), true
+					case "VERIF_C10_TOG":
+						v, _ = togVal(curCase)
+						ok = true
+					}
+					if ok || name == "VERIF_C10_U" {
 						out.WriteString(v)
 						i += j + len(form[1])
 						matched = true
@@ -225,6 +259,10 @@ func (g *gen) argTok() tok {
 		return g.write(r.Pick([]string{"{$VERIF_C10_A}", "{%VERIF_C10_A%}", "{$VERIF_C10_B}", "{$VERIF_C10_C}", "{$VERIF_C10_E}", "{$VERIF_C10_U}", "{$VERIF_C10_S}"}))
 	case 7:
 		g.feats["env"] = true
+		if r.Intn(2) == 0 {
+			g.feats["env-changing-between-parses"] = true
+			return g.write(r.Pick([]string{"{$VERIF_C10_ROT}", "{%VERIF_C10_ROT%}", "{$VERIF_C10_TOG}", "v={$VERIF_C10_ROT}/{$VERIF_C10_TOG}."}))
+		}
 		return g.write("pre-" + r.Pick([]string{"{$VERIF_C10_A}", "{%VERIF_C10_C%}", "{$VERIF_C10_U}"}) + "/post")
 	case 8:
 		g.feats["env"] = true
@@ -630,6 +668,7 @@ func genCase(seed uint64, idx int, root string) *rcase {
 // genCaseOpt: with inlineOnly the same AST (without the duplicated run of the
 // reuse feature) is rendered into one file, for differential diagnosis.
 func genCaseOpt(seed uint64, idx int, root string, inlineOnly bool) *rcase {
+	curCase = idx
 	r := lib.NewRng(seed*0x9E3779B97F4A7C15 ^ uint64(idx)*0xD1B54A32D192ED03 ^ 0xC10C)
 	ra := lib.NewRng(seed*0x9E3779B97F4A7C15 ^ uint64(idx/4)*0x94D049BB133111EB ^ 0xA57)
 	g := &gen{r: r, ra: ra, root: root, files: map[string]string{}, feats: map[string]bool{}}
